@@ -1,0 +1,59 @@
+//go:build verif
+
+// Contracts of package interval for the gocv verifier (properties C17, C16,
+// C04). Comment-only: no Go code is compiled from this file.
+//
+// wfl(a): the list is a well-formed interval set: every interval non-empty,
+// sorted, disjoint and non-adjacent. meml(a, x): x belongs to the set.
+// Contracts on generic functions are checked for the instantiations in the
+// program. shape(n) is an argument with n intervals of arbitrary end points.
+
+package interval
+
+//@ pure func wfl(a) = forall k int :: 0 <= k && k < len(a) ==> a[k].begin < a[k].end && (k+1 < len(a) ==> a[k].end < a[k+1].begin)
+//@ pure func meml(a, x) = exists k int :: 0 <= k && k < len(a) && a[k].begin <= x && x < a[k].end
+//@ pure func nonempty(a) = forall k int :: 0 <= k && k < len(a) ==> a[k].begin < a[k].end
+
+//@ func New
+//@   panics iff begin > end
+//@   ensures result.begin == begin && result.end == end
+
+//@ func NewMap
+//@   enum n in SIZES
+//@   input:intvs shape(n)
+//@   requires nonempty(intvs)
+//@   ensures[wf] wfl(result.intvs)
+//@   ensures[set] forall x uint64 :: meml(result.intvs, x) == meml(old(intvs), x)
+
+//@ func MapUnion
+//@   enum n1 in SIZES, n2 in SIZES
+//@   input:i1 shape(n1)
+//@   input:i2 shape(n2)
+//@   requires wfl(i1.intvs) && wfl(i2.intvs)
+//@   ensures[wf] wfl(result.intvs)
+//@   ensures[set] forall x uint64 :: meml(result.intvs, x) == (meml(i1.intvs, x) || meml(i2.intvs, x))
+//@   ensures[frame] unchanged(i1.intvs) && unchanged(i2.intvs)
+
+//@ func MapComplement
+//@   enum n1 in SIZES, n2 in SIZES
+//@   input:i1 shape(n1)
+//@   input:i2 shape(n2)
+//@   requires wfl(i1.intvs) && wfl(i2.intvs)
+//@   ensures[wf] wfl(result.intvs)
+//@   ensures[set] forall x uint64 :: meml(result.intvs, x) == (meml(i1.intvs, x) && !meml(i2.intvs, x))
+//@   ensures[frame] unchanged(i1.intvs) && unchanged(i2.intvs)
+
+//@ func MapIntersect
+//@   enum n1 in SIZES, n2 in SIZES
+//@   input:i1 shape(n1)
+//@   input:i2 shape(n2)
+//@   requires wfl(i1.intvs) && wfl(i2.intvs)
+//@   ensures[wf] wfl(result.intvs)
+//@   ensures[set] forall x uint64 :: meml(result.intvs, x) == (meml(i1.intvs, x) && meml(i2.intvs, x))
+//@   ensures[frame] unchanged(i1.intvs) && unchanged(i2.intvs)
+
+//@ func (Map).Equal
+//@   enum n1 in SIZES, n2 in SIZES
+//@   input:m1 shape(n1)
+//@   input:m2 shape(n2)
+//@   ensures result == (n1 == n2 && forall k int :: 0 <= k && k < n1 ==> m1.intvs[k].begin == m2.intvs[k].begin && m1.intvs[k].end == m2.intvs[k].end)
